@@ -679,6 +679,10 @@ def gen_c01(tier, seed):
         ops += ['rs:%x' % v, 'k:%x' % k, 'bt:%x' % maxboot, settle, 'dk', 'vr', 'vd']
         for _ in range(nlf):
             ops += ['qa:a', 'run:%x' % max(1, t20 // 4)]
+        if nlf:
+            # let the terminal finish scrolling before the typing starts (firmware 1 moves the whole window per line feed
+            # and falls behind a line feed every 5 ms; the host queue holds the rest): 60 ms of emulated time per line
+            ops += ['run:%x' % (3 * t20 * nlf)]
         keys = [r.choice(list(range(0x20, 0x7f))) for _ in range(r.randrange(5, 12) if not nv.startswith('opt') else 12)]
         if nv == 'burst':
             # a burst: several keys queued at once, then a few instructions that each take a whole character time, so
